@@ -40,7 +40,7 @@ const bucket = "c06bkt"
 type spec struct {
 	strat string // "otmp" | "nootmp"
 	op    string // "put" | "part"
-	mode  string // "signed" | "unsigned" | "chunked" | "chunked-tr" | "unsigned-tr"
+	mode  string // "signed" | "unsigned" | "chunked" | "chunked-tr" | "unsigned-tr" | "presigned"
 	field string // integrity field under test
 	corr  string // corruption (fine grained; part of the case id)
 	state string // "new" | "existing" | "twin" (the key / part already holds the very body the corrupted request claims to carry)
@@ -91,9 +91,11 @@ func (s spec) sig(outcome string) string {
 	return strings.Join([]string{s.op, s.mode, s.field, s.sigCorr(), outcome}, ":")
 }
 
-func isStream(mode string) bool { return mode != "signed" && mode != "unsigned" }
+func isStream(mode string) bool { return mode != "signed" && mode != "unsigned" && mode != "presigned" }
 
-var modes = []string{"signed", "unsigned", "chunked", "chunked-tr", "unsigned-tr"}
+// "presigned": query-string authentication, the payload is not covered by the signature; integrity fields travel as
+// plain headers and are assertions all the same
+var modes = []string{"signed", "unsigned", "chunked", "chunked-tr", "unsigned-tr", "presigned"}
 
 func allSpecs(strat string, reps int) []spec {
 	var out []spec
@@ -127,14 +129,14 @@ func allSpecs1(strat string) []spec {
 				add("md5", "wrong-value+company")
 				add("md5", "wrong-value+empty-body")
 				add("md5", "wrong-value+final-chunk-alone")
-				if mode == "signed" {
+				if mode == "signed" || mode == "presigned" {
 					for _, f := range flipsPlain {
 						add("sha256", f)
 					}
 					add("sha256", "wrong-value")
 					add("sha256", "wrong-value+company")
 				}
-				if mode == "signed" || mode == "unsigned" || mode == "chunked" {
+				if mode == "signed" || mode == "unsigned" || mode == "chunked" || mode == "presigned" {
 					for _, a := range s3c.Algos {
 						for _, f := range flips {
 							add("hdr-"+a, f)
@@ -209,7 +211,7 @@ func (s spec) expectation() string {
 			// the aws-chunked stream is self-delimiting; all payload bytes, signatures and trailers arrive
 			return "exact"
 		}
-		if s.mode == "unsigned" && strings.HasPrefix(s.corr, "cl-smaller") {
+		if (s.mode == "unsigned" || s.mode == "presigned") && strings.HasPrefix(s.corr, "cl-smaller") {
 			return "prefix"
 		}
 	}
@@ -255,6 +257,11 @@ func (v *variant) req(mode, path, query string) *s3c.Req {
 		r.PayloadHash = v.payloadHash
 	case "unsigned":
 		r.PayloadHash = s3c.Unsigned
+	case "presigned":
+		r.Presign = true
+		if v.payloadHash != "" {
+			r.Header = append(r.Header, [2]string{"X-Amz-Content-Sha256", v.payloadHash})
+		}
 	default:
 		st := &s3c.Stream{ChunkSizes: v.chunks, BadChunkSig: v.badChunkSig, BadTrailerSig: v.badTrSig,
 			OmitFinalChunk: v.omitFinal, ExtraTail: v.extraTail, DecodedLen: v.decodedLen, Mutate: v.mutate}
@@ -445,6 +452,9 @@ func build(s spec, r *rand.Rand, thorough bool) *plan {
 	case strings.HasPrefix(s.field, "tr-"):
 		base.trVal = s3c.Checksum(algo, payload)
 	}
+	if s.mode == "presigned" && s.field == "sha256" {
+		base.payloadHash = s3c.SHA256Hex(payload)
+	}
 	p.ctl = base
 	bad := base
 
@@ -499,7 +509,7 @@ func build(s spec, r *rand.Rand, thorough bool) *plan {
 			if s.field != "md5" {
 				base.md5 = s3c.MD5B64(payload)
 			}
-			if !strings.HasPrefix(s.field, "hdr-") && (s.mode == "signed" || s.mode == "unsigned" || s.mode == "chunked") {
+			if !strings.HasPrefix(s.field, "hdr-") && (s.mode == "signed" || s.mode == "unsigned" || s.mode == "chunked" || s.mode == "presigned") {
 				base.hdrAlgo = []string{"sha256", "crc32", "sha1"}[r.Intn(3)]
 				if s.field == "sha256" {
 					// the same digest twice: the most inviting shortcut ("already hashed")
